@@ -349,6 +349,8 @@ pub broadcast group group_seq_facts {
             final(self).inv(), final(self).caps_same(old(self)),
             !final(self).lru.tracks(*key),
             forall|k: K| k != *key ==> final(self).lru.tracks(k) == old(self).lru.tracks(k),
+            // no key changes its region
+            forall|q: Region, k: K| #[trigger] final(self).lru.seq(q).contains(k) == (old(self).lru.seq(q).contains(k) && k != *key),
 //@ head
         broadcast use group_seq_facts;
 //@ end
@@ -373,6 +375,8 @@ pub trait LifecycleListener<K, V> {}
 #[verifier::reject_recursive_types(V)]
 pub struct TinyLFUInner<K, V, L> {
     pub storage: StorageMap<K, V>,
+    pub read_buffer: ReadBuffer<K>,
+    pub write_buffer: UnboundedBuffer<WriteMessage<K>>,
     pub unpin_strategy: UnpinStrategy,
     pub lifecycle_listener: L,
     pub build_hasher: FxBuildHasher,
@@ -383,6 +387,23 @@ pub struct TinyLFUInner<K, V, L> {
 #[verifier::reject_recursive_types(K)]
 #[verifier::reject_recursive_types(V)]
 pub struct StorageMap<K, V> { _p: core::marker::PhantomData<(K, V)> }
+/// the concurrent message buffers (other threads push while maintenance drains): opaque; `pop` may answer anything,
+/// `drain` hands out some batch of keys
+#[verifier::external_body]
+#[verifier::reject_recursive_types(T)]
+pub struct UnboundedBuffer<T> { _p: core::marker::PhantomData<T> }
+impl<T> UnboundedBuffer<T> {
+    #[verifier::external_body]
+    pub fn pop(&self) -> Option<T> { unimplemented!() }
+}
+#[verifier::external_body]
+#[verifier::reject_recursive_types(T)]
+pub struct ReadBuffer<T> { _p: core::marker::PhantomData<T> }
+impl<T> ReadBuffer<T> {
+    /// the real `drain` returns `impl Iterator<Item = T>`; the stand-in hands the batch out as a Vec
+    #[verifier::external_body]
+    pub fn drain(&self) -> Vec<T> { unimplemented!() }
+}
 impl<K, V> StorageMap<K, V> {
     #[verifier::external_body]
     pub fn contains_sync(&self, key: &K) -> bool { unimplemented!() }
@@ -424,12 +445,26 @@ impl<K, V, L> TinyLFUInner<K, V, L> {
             // the owner removed the entry: the policy must stop tracking that key -- whatever else happened to the key
             // since -- and must not touch any other key
             WriteMessage::Removed(key) => !new_p.lru.tracks(key)
-                && (forall|k: K| k != key ==> #[trigger] new_p.lru.tracks(k) == old_p.lru.tracks(k)),
+                && (forall|k: K| k != key ==> #[trigger] new_p.lru.tracks(k) == old_p.lru.tracks(k))
+                && (forall|q: Region, k: K| #[trigger] new_p.lru.seq(q).contains(k) ==> old_p.lru.seq(q).contains(k)),
         }
     }
 }
 
 //@ impl crates/storage/src/tiny_lfu.rs :: impl< K: std::hash::Hash + Eq + Clone + Send + Sync + 'static, V: Send + Sync + 'static, L: LifecycleListener<K, V> + Send + Sync + 'static, > TinyLFUInner<K, V, L>
+//@ member process_policy_message
+//@ attr
+    #[verifier::exec_allows_no_decreases_clause]
+//@ sig
+        requires old(lock).inv()
+        ensures final(lock).inv(), final(lock).caps_same(old(lock)),
+            // nothing is parked that the owner did not refuse to give up during this maintenance pass
+            self.parks_only_pinned(old(lock), final(lock)),
+//@ loop 0 inv
+            invariant lock.inv(), lock.caps_same(old(lock)), self.parks_only_pinned(old(lock), lock),
+//@ loop 1 iter __it
+//@ loop 1 inv
+            invariant lock.inv(), lock.caps_same(old(lock)), self.parks_only_pinned(old(lock), lock),
 //@ member process_write
 //@ sig
         requires old(lock).inv()
